@@ -11,8 +11,8 @@ import pool
 from common import cerberus, real_error
 
 LEVEL = "proof"
-COQ_FILES = ["theories/Model/Worklist.v", "theories/Model/Normalize.v", "theories/Proofs/WorklistProofs.v", "theories/Proofs/DefaultsProofs.v", "theories/Properties/C17.v"]
-FACT_GROUPS = ["F11"]
+COQ_FILES = ['theories/Model/Worklist.v', 'theories/Proofs/WorklistProofs.v', 'theories/Proofs/DefaultsProofs.v', 'theories/Proofs/LfpProofs.v', 'theories/Proofs/SetterLfp.v', 'theories/Properties/C17.v']
+FACT_GROUPS = ['F11', 'F12']
 ALLOWED_AXIOMS = []
 TRUSTED_BASE = [
     "Coq 8.16.1 kernel; Print Assumptions: closed under the global context",
